@@ -299,7 +299,7 @@ seq(prop="C12", lean_targets=["TransportVerif.Props.C12"], pkg="udp", run="^Test
          "every connection returned by Accept are closed. non-trivial = Accept takes a connection after Close began, Close discards unaccepted connections, the step that closes the socket, a Close "
          "waiting for the read loop, Close waking blocked Accepts, arrivals; distinct = hash of the schedule",
     design_ref="DESIGN.md 7.12", technique="Lean 4 proof: step invariant of the reference-count transition system (socket closed iff listener and all handed-out connections closed, counter never negative); schedules replayed on the real listener under the controlled scheduler",
-    level_text="PENDING", level_note="PENDING",
+    level_text="Theorems (Props/C12.lean) about the reference-count transition system of the listener for every scenario (connections already accepted, connections waiting in the backlog, any number of Accept callers, a listener Close, Closes of accepted connections, datagram arrivals) and EVERY interleaving at the yield points of Accept, listener Close and Conn.Close: count_exact (the count that decides when the socket is closed = the listener's reference + queued connections + connections handed to clients whose Close has not started; no subtraction underflows), socket_closed_iff (closed exactly when all three are zero: never while the listener or a connection returned by Accept is open, and as soon as the last is closed), accept_fails_after_close, unaccepted_discarded, no_new_conn_after_close, no_close_stuck (at quiescence nobody is blocked waiting for the read loop). The pinned tree violated it (Accept had taken the connection but not yet counted it when Close ran: the socket was closed under a connection returned with nil error; witness schedule in corpus/C12, replayed on a real listener); repaired by a fix: commit (a connection is counted from the moment it is queued). Tie: udp/conn.go gets yield points by the AST pass; schedules run on a real listener on a loopback socket and socket state, backlog length, table size and every goroutine's position are compared with the model after every grant; the implementation's final state is judged.", level_note="Trusted: Lean kernel + standard axioms; the read loop and the closer goroutine are unmanaged (their reaction to the count reaching zero is observed at quiescence); Go's select among two ready cases is fed to the model as observed (grantErr); at most one Close caller per object in the concurrent phase (idempotence exercised sequentially); port re-bindability and absence of leftover goroutines are not part of the theorems; the kernel socket is only asked whether it is closed.",
     trusted=LEAN_TB + ["hand-written transition system Model/ListenerLife.lean tied to udp/conn.go by controlled-schedule runs on a real listener compared after every grant",
                        "the read loop and the closer goroutine are unmanaged: their reaction to the count reaching zero is observed at quiescence; the kernel socket is only asked whether it is closed",
                        "vrewrite, cosched"],
